@@ -607,3 +607,89 @@ pub fn finish(
     );
     exit
 }
+
+// ---------------------------------------------------------------------------------------------
+// Watchdog (C06: "... or fails to terminate"): every worker publishes the input it is working on;
+// a monitor thread reports an input that has been in progress for longer than the limit.
+
+pub struct WatchSlot {
+    /// milliseconds since process start at which the current evaluation began; 0 = idle
+    since_ms: std::sync::atomic::AtomicU64,
+    text: Mutex<String>,
+}
+
+static WATCH_SLOTS: Mutex<Vec<std::sync::Arc<WatchSlot>>> = Mutex::new(Vec::new());
+static WATCH_ON: std::sync::atomic::AtomicBool = std::sync::atomic::AtomicBool::new(false);
+
+thread_local! {
+    static MY_SLOT: std::sync::Arc<WatchSlot> = {
+        let s = std::sync::Arc::new(WatchSlot { since_ms: std::sync::atomic::AtomicU64::new(0), text: Mutex::new(String::new()) });
+        WATCH_SLOTS.lock().unwrap().push(s.clone());
+        s
+    };
+}
+
+fn now_ms() -> u64 {
+    static START: std::sync::OnceLock<std::time::Instant> = std::sync::OnceLock::new();
+    START.get_or_init(std::time::Instant::now).elapsed().as_millis() as u64 + 1
+}
+
+/// Publish the input about to be evaluated (no-op unless the watchdog is on).
+pub fn watch_begin(input: &str) {
+    use std::sync::atomic::Ordering;
+    if !WATCH_ON.load(Ordering::Relaxed) {
+        return;
+    }
+    MY_SLOT.with(|s| {
+        let mut t = s.text.lock().unwrap();
+        t.clear();
+        // long inputs: keep the head and the length (the pumping family is regenerated by index)
+        if input.len() > 4096 {
+            let mut cut = 256;
+            while !input.is_char_boundary(cut) {
+                cut -= 1;
+            }
+            t.push_str(&input[..cut]);
+            t.push_str(&format!("...<{} bytes>", input.len()));
+        } else {
+            t.push_str(input);
+        }
+        s.since_ms.store(now_ms(), Ordering::Relaxed);
+    });
+}
+
+pub fn watch_end() {
+    use std::sync::atomic::Ordering;
+    if !WATCH_ON.load(Ordering::Relaxed) {
+        return;
+    }
+    MY_SLOT.with(|s| s.since_ms.store(0, Ordering::Relaxed));
+}
+
+/// Start the monitor thread: an evaluation in progress for more than `limit_s` seconds is reported as
+/// a C06 violation (replay file with the input) and the process exits with 1.
+pub fn start_watchdog(prop: &'static str, limit_s: u64) {
+    use std::sync::atomic::Ordering;
+    WATCH_ON.store(true, Ordering::Relaxed);
+    let _ = now_ms();
+    std::thread::spawn(move || loop {
+        std::thread::sleep(std::time::Duration::from_secs(5));
+        let now = now_ms();
+        let slots = WATCH_SLOTS.lock().unwrap().clone();
+        for s in slots {
+            let since = s.since_ms.load(Ordering::Relaxed);
+            if since != 0 && now.saturating_sub(since) > limit_s * 1000 {
+                let input = s.text.lock().unwrap().clone();
+                let root = verif_root();
+                let _ = std::fs::create_dir_all(format!("{root}/replays"));
+                let path = format!("{root}/replays/{prop}-hang.json");
+                let body = json!({"property": prop, "kind": "hang", "case": {"engine": "string", "flavor": "any", "input": input},
+                                  "detail": format!("one input has been in progress for more than {limit_s} s"), "replayed_twice": false});
+                let _ = std::fs::write(&path, serde_json::to_string_pretty(&body).unwrap());
+                println!("VIOLATION property={prop} replay={path}");
+                println!("  hang: an evaluation did not terminate within {limit_s} s: {:?}", input.chars().take(120).collect::<String>());
+                std::process::exit(1);
+            }
+        }
+    });
+}
